@@ -1,5 +1,6 @@
 SPECIFICATION Spec
 CONSTANT MaxEdits = 2
+CONSTANT MCBases = {"meta1", "p3", "p4d", "mHenry", "mLangmuir"}
 INVARIANT InvWellFormed
 INVARIANT InvEffective
 INVARIANT InvImplSensitive
